@@ -70,6 +70,11 @@ Proof.
   unfold json_unmarshal. rewrite Hv, Hi. reflexivity.
 Qed.
 
+(* a document the scanner rejects is an error for every type *)
+Lemma json_unmarshal_invalid {A} (pa : str -> res A) doc :
+  json_valid doc = false -> json_unmarshal pa doc = Err EJson.
+Proof. intros H. unfold json_unmarshal. rewrite H. reflexivity. Qed.
+
 (** * fixed-width integers *)
 Lemma uint_shape w v : json_number_or_plain_string (print_uint w v).
 Proof.
